@@ -968,25 +968,24 @@ def _run(ctx):
         tscopes = [(3, 5, "sorted:pos:2:5"), (4, 4, "sorted:pos:1:4"), (2, 4, "sorted:pos:3:4")]
     else:
         tscopes = [(4, 7, "sorted:pos:1:7"), (3, 7, "sorted:pos:2:7"), (2, 6, "sorted:pos:3:6"), (4, 5, "sorted:pos:2:5"), (4, 4, "sorted:pos:3:4")]
+    def all_windows(fn, things, cs):
+        return [c for w in windows for c in things_cases(fn, things, cs, w=w)]
     for tn, tg, cs in tscopes:
-        things = sorted_things(tn, tg, ends=True)
-        for w in windows:
-            run_sweep(ctx, "touching_windows/exhaustive", things_cases("touch", things, cs, w=w), pairs_per_case=len(scope(cs)["rows"]),
-                      rule="every array of <= n positive-length things sorted by time and endtime x every time-sorted (overlapping allowed) containers array x window -2..3; "
-                           "scopes (things n, grid, containers scope): " + ", ".join(f"({a},{b},{c})" for a, b, c in tscopes),
-                      branch=lambda c, o: f"w={c['w']}")
-    stn, stg, stc = (3, 4, "sorted:pos:2:4") if not T else (3, 5, "sorted:pos:2:5")
-    for w in windows:
-        run_sweep(ctx, "split_touching_windows/exhaustive", things_cases("splittouch", sorted_things(stn, stg, ends=True), stc, w=w),
-                  pairs_per_case=len(scope(stc)["rows"]),
-                  rule=f"every array of <= {stn} positive-length things sorted by time and endtime on grid 0..{stg} x scope '{stc}' x window -2..3",
+        run_sweep(ctx, "touching_windows/exhaustive", all_windows("touch", sorted_things(tn, tg, ends=True), cs),
+                  pairs_per_case=len(scope(cs)["rows"]),
+                  rule="every array of <= n positive-length things sorted by time and endtime x every time-sorted (overlapping allowed) containers array x window -2..3; "
+                       "scopes (things n, grid, containers scope): " + ", ".join(f"({a},{b},{c})" for a, b, c in tscopes),
                   branch=lambda c, o: f"w={c['w']}")
+    stn, stg, stc = (3, 4, "sorted:pos:2:4") if not T else (3, 5, "sorted:pos:2:5")
+    run_sweep(ctx, "split_touching_windows/exhaustive", all_windows("splittouch", sorted_things(stn, stg, ends=True), stc),
+              pairs_per_case=len(scope(stc)["rows"]),
+              rule=f"every array of <= {stn} positive-length things sorted by time and endtime on grid 0..{stg} x scope '{stc}' x window -2..3",
+              branch=lambda c, o: f"w={c['w']}")
     zt, zg, zc = (2, 4, "sorted:zero:2:4") if not T else (3, 4, "sorted:zero:2:4")
-    for w in windows:
-        run_sweep(ctx, "touching_windows/zero-length+unsorted-ends", things_cases("touch", sorted_things(zt, zg, zero=True), zc, w=w),
-                  pairs_per_case=len(scope(zc)["rows"]),
-                  rule=f"every time-sorted array of <= {zt} things incl. zero-length and unsorted endtimes (grid 0..{zg}) x scope '{zc}' x window -2..3; "
-                       "definition checked where endtimes are sorted, agreement everywhere", branch=lambda c, o: f"w={c['w']}")
+    run_sweep(ctx, "touching_windows/zero-length+unsorted-ends", all_windows("touch", sorted_things(zt, zg, zero=True), zc),
+              pairs_per_case=len(scope(zc)["rows"]),
+              rule=f"every time-sorted array of <= {zt} things incl. zero-length and unsorted endtimes (grid 0..{zg}) x scope '{zc}' x window -2..3; "
+                   "definition checked where endtimes are sorted, agreement everywhere", branch=lambda c, o: f"w={c['w']}")
     cases = []
     for _ in range(ctx.pick(6000, 60000)):
         span = rng.choice([10, 30, 60])
